@@ -105,17 +105,39 @@ func main() {
 		if ta == nil || ta.Body == nil {
 			lib.Fatalf("%s: globalTokenBucket.TryAcquireN not found", tbf)
 		}
+		// the clock reading and AllowN both come after a top-level `f.<lock>.Lock(); defer f.<lock>.Unlock()` pair
+		// (guards that return before the lock is taken, or between the lock and the reading, do not matter)
 		serialized := false
-		if len(ta.Body.List) >= 3 {
-			if e, ok := ta.Body.List[0].(*ast.ExprStmt); ok {
-				if r, m, ok := selCall(e.X); ok && strings.HasPrefix(r, "f.") && m == "Lock" {
-					if d, ok := ta.Body.List[1].(*ast.DeferStmt); ok {
-						if r2, m2, ok := selCall(d.Call); ok && r2 == r && m2 == "Unlock" {
-							serialized = true
-						}
+		touches := func(n ast.Node) bool {
+			found := false
+			ast.Inspect(n, func(m ast.Node) bool {
+				if e, ok := m.(ast.Expr); ok {
+					if r, meth, ok := selCall(e); ok && (meth == "AllowN" || (r == "time" && meth == "Now")) {
+						found = true
 					}
 				}
+				return true
+			})
+			return found
+		}
+		for i := 0; i+1 < len(ta.Body.List); i++ {
+			if touches(ta.Body.List[i]) {
+				break
 			}
+			e, ok := ta.Body.List[i].(*ast.ExprStmt)
+			if !ok {
+				continue
+			}
+			r, m, ok := selCall(e.X)
+			if !ok || !strings.HasPrefix(r, "f.") || m != "Lock" {
+				continue
+			}
+			if d, ok := ta.Body.List[i+1].(*ast.DeferStmt); ok {
+				if r2, m2, ok := selCall(d.Call); ok && r2 == r && m2 == "Unlock" {
+					serialized = true
+				}
+			}
+			break
 		}
 		allowN := false
 		ast.Inspect(ta.Body, func(n ast.Node) bool {
@@ -136,9 +158,15 @@ func main() {
 		// --- ratelimter.go: the halving loop
 		const rl = "pkg/ratelimiter/limiter/ratelimter.go"
 		f2 := g.ParseFile(rl)
-		da := lib.FuncDecl(f2, "rateLimiter", "DoAcquire")
-		if da == nil {
+		if lib.FuncDecl(f2, "rateLimiter", "DoAcquire") == nil {
 			lib.Fatalf("%s: rateLimiter.DoAcquire not found", rl)
+		}
+		// the retry loop may live in DoAcquire or in a helper it was moved to: look at the whole file
+		da := &ast.FuncDecl{Body: &ast.BlockStmt{}}
+		for _, d := range f2.Decls {
+			if fd, ok := d.(*ast.FuncDecl); ok && fd.Body != nil {
+				da.Body.List = append(da.Body.List, fd.Body)
+			}
 		}
 		tries, divisor := "", ""
 		ast.Inspect(da.Body, func(n ast.Node) bool {
@@ -150,8 +178,18 @@ func main() {
 			if !ok || be.Op != token.LSS {
 				return true
 			}
-			lit, ok := be.Y.(*ast.BasicLit)
-			if !ok || lit.Kind != token.INT {
+			bound := ""
+			switch y := be.Y.(type) {
+			case *ast.BasicLit:
+				if y.Kind == token.INT {
+					bound = y.Value
+				}
+			case *ast.Ident: // a named constant of the file
+				if v, ok := g.Consts(rl)[y.Name]; ok {
+					bound = lib.IntLit(v)
+				}
+			}
+			if bound == "" {
 				return true
 			}
 			found := ""
@@ -180,12 +218,12 @@ func main() {
 				return true
 			})
 			if found != "" {
-				tries, divisor = lit.Value, found
+				tries, divisor = bound, found
 			}
 			return true
 		})
 		if tries == "" {
-			lib.Fatalf("%s: DoAcquire has no `for i := 0; i < N; i++ { … token = token / D … }` loop any more", rl)
+			lib.Fatalf("%s: no `for i := 0; i < N; i++ { … token = token / D … }` loop any more", rl)
 		}
 		b.WriteString("/-- `for i := 0; i < tbTries; i++ { … token = token / tbDivisor … }` in the token-bucket arm of `DoAcquire` -/\n")
 		fmt.Fprintf(&b, "def tbTries : Nat := %s\n", tries)
